@@ -145,6 +145,7 @@ Definition track_local (t : tok) : bool :=
   | TCC _ _ | TPitchBend _ _ | TRpnCmd _ _ _ _               (* controller / bend events on the current track *)
   | TRandom _ _ | TOnNote _ _ _ | TVOnTime _ | TCCOnTime _ _ | TCCOnNote _ _ | TCCOnNoteWave _ _ | TCCFreq _
   | TPBOnTime _ _ | TDecresc _ _ _ => true                   (* reservations of the current track *)
+  | TMetaText _ _ => true                                    (* a text meta event on the current track *)
   | _ => false
   end.
 
@@ -225,6 +226,7 @@ Proof.
   first
   [ solve [intros E; injection E as <-; frame_leaf]
   | solve [unfold add_events; intros E; injection E as <-; frame_leaf]
+  | solve [destruct (_ && _); [|discriminate]; unfold add_events; intros E; injection E as <-; frame_leaf]   (* guarded arms *)
   | solve [apply exec_note_frame]
   | solve [apply exec_note_n_frame]
   | solve [unfold exec_rest, exec_harmony_end, exec_voice;
@@ -340,6 +342,7 @@ Proof.
   [ solve [apply exec_note_indep; exact Hs]
   | solve [apply exec_note_n_indep; exact Hs]
   | solve [unfold add_events; rewrite ?Hct; indep_leaf Hs]
+  | solve [destruct (_ && _); [|reflexivity]; unfold add_events; rewrite ?Hct; indep_leaf Hs]   (* guarded arms *)
   | solve [rewrite (cc_arm_eq s _ _ (proj1 Hs)), (cc_arm_eq (s_set_tracks s l2) _ _ (proj1 (proj2 Hs))); rewrite ?Hct; indep_leaf Hs]
   | solve [unfold exec_rest, exec_harmony_end, exec_voice; rewrite ?Hct;
            cbn [s_timebase s_octave_once s_v_add s_q_add s_harmony_flag s_harmony_time s_harmony_events s_set_tracks];
@@ -548,6 +551,7 @@ Proof.
   first
   [ solve [hnorm_leaf F]
   | solve [unfold add_events, cur_track; pj; hnorm_leaf F]
+  | solve [destruct (_ && _); [|reflexivity]; unfold add_events, cur_track; pj; hnorm_leaf F]   (* guarded arms *)
   | solve [apply exec_note_hnorm; exact F]
   | solve [apply exec_note_n_hnorm; exact F]
   | solve [change (cur_track (s_set_harmony s false 0 (s_harmony_events s))) with (cur_track s);
